@@ -159,6 +159,9 @@ class BaseValidator(object):
           :py:meth:`cutplace.checks.AbstractCheck.check_at_end` fails.
         """
         if not self._is_closed:
+            # Mark as closed first so a failing check at the end does not cause a second
+            # close() to ask all checks and clean them up again.
+            self._is_closed = True
             try:
                 if not self._skip_checks_at_end:
                     for check_name in self.cid.check_names:
@@ -166,7 +169,6 @@ class BaseValidator(object):
             finally:
                 for check in self.cid.check_map.values():
                     check.cleanup()
-            self._is_closed = True
 
 
 class Reader(BaseValidator):
